@@ -286,12 +286,32 @@ def run(ctx):
                     mentions(cps[0][1], lambda s: is_call(s, name="serialize") and fld(arg(1), "R")(s[2][0])) and
                     rng(cps[1][0]).get("start") == ("const", "usize", 32) and
                     mentions(cps[1][1], lambda s: is_field(s, "Signature", "z") or fld(arg(1), "z")(s)))
+        if not good and len(oks) == 1:
+            # the concatenation form: a buffer filled by `extend_from_slice` / `concat` with the two parts in order, the first being
+            # ser(R) without its tag byte (`[1..]`, `split_at(1).1`, `split_first().1`)
+            parts = flatten(oks[0])
+            serR = lambda t: mentions(t, lambda s_: is_call(s_, name="serialize") and fld(arg(1), "R")(s_[2][0]))
+            def tail1(t):
+                from .c01 import strip_views
+                t = strip_views(t)
+                if is_call(t, name="index") and len(t[2]) == 2 and t[2][1][0] == "agg" and (t[2][1][2] or "").endswith("RangeFrom"):
+                    return dict(t[2][1][4]).get("start") == ("const", "usize", 1) and serR(t[2][0])
+                if t[0] == "field" and t[2] is None and t[3] == "1":
+                    b = t[1]
+                    if is_call(b, name="split_at") and len(b[2]) == 2:
+                        return b[2][1] == ("const", "usize", 1) and serR(b[2][0])
+                    if b[0] == "some" and is_call(b[1], name="split_first") and len(b[1][2]) == 1:
+                        return serR(b[1][2][0])
+                return False
+            good = len(parts) == 2 and tail1(parts[0]) and not serR(parts[1]) and \
+                mentions(parts[1], lambda u: is_field(u, "Signature", "z") or fld(arg(1), "z")(u))
         ctx.check(good, "SEQ", f.key, "x(R)||ser(z)", "BIP-340: signature = bytes(R)[x-only, tag byte dropped] || bytes(z)", f.loc)
     # 6. per-ciphersuite hash functions
     for crate, (suite, cs, style) in sorted(SUITES.items()):
         ctx.check(P.consts.get(crate + "::CONTEXT_STRING") == '"%s"' % cs, "TAB", crate, "contextString",
                   "contextString of %s is %s, RFC 9591 §6 says \"%s\"" % (crate, P.consts.get(crate + "::CONTEXT_STRING"), cs))
-        ctxs = lambda t: is_call(t, name="as_bytes") and t[2][0] == ("const", "&str", "uneval:%s::CONTEXT_STRING" % crate)
+        ctxs = lambda t: is_call(t, name="as_bytes") and t[2][0] in (("const", "&str", "uneval:%s::CONTEXT_STRING" % crate),
+                                                                     ("const", "&str", '"%s"' % cs))
         for hname, tag in sorted(TAGS.items()):
             tr = "frost_rerandomized::RandomizedCiphersuite" if hname == "hash_randomizer" else "frost_core::traits::Ciphersuite"
             key = "<%s::%s as %s>::%s" % (crate, suite, tr, hname)
